@@ -140,6 +140,8 @@ def run(ck):
     ck.assumptions += ["same codec / fake signature backend assumptions as C05",
                        "both stages run under the same progress; the partial message always carries the zero chain as its vote value",
                        "completion = pgmsg.Vote.Value = chain; inferJustificationVoteValue(pgmsg) (the two statements of CompleteMessage and of the chain discovery loop)"]
+    import pmsgmgr
+    pmsgmgr.manager_stage(ck)   # the production partial message manager between the real stage 1 and the real stage 2
 
 
 MANIFEST = dict(
